@@ -614,5 +614,16 @@ def rule_choice_constant_rules(ctx):
     decide(ctx, "O2.9", "Constant rule", FIELDS + "ConstantFieldFormat.__init__", constant_cell, min_cells=16)
 
 
+def rule_range_membership(ctx):
+    """O1.3 (shared with C01): Integer and Decimal fields hand the converted value to Range / DecimalRange.validate; that
+    these accept exactly the values inside an item - the value itself, not a rounded one, and whatever was validated
+    before - is part of C02's obligations."""
+    from .c01 import rule_membership
+
+    rule_membership(ctx)
+
+
+from .common import rule_module_state  # noqa: E402
+
 RULES = [rule_integer, rule_decimal, rule_choice_constant_text, rule_datetime, rule_regex_pattern, rule_range_from_length,
-         rule_choice_constant_rules]
+         rule_choice_constant_rules, rule_range_membership, rule_module_state]
